@@ -1,4 +1,9 @@
-from harness.interp_common import InterpProp
+from harness.interp_common import InterpProp, gen_interp_case
+from harness.props import c12 as C12M
+
+
+def _strip(case):
+    return {k: v for k, v in case.items() if k != "kind"}
 
 
 class C04(InterpProp):
@@ -6,15 +11,47 @@ class C04(InterpProp):
     DESIGN_REF = "DESIGN.md §7 C04"
     QUICK_N = 300
     THOROUGH_N = 12000
-    LEVEL_TEXT = "PARTIAL. Coq theorems about the interpreter model: in EVERY tick a Watch / Alarm becomes activated only if its condition evaluated true without raising in that tick's environment (or it had been forced); in EVERY state of EVERY run a started line whose parent is a Watch (outside Alarm and Macro bodies) has an ACTIVATED parent -- a Watch body runs only after its condition held (stack invariant over all generators); the lines of a Watch body outside Alarm and Macro bodies start at most once in every run; after every tick of every run no Watch / Alarm whose block has ended has a handler left in the interrupt map (with /repo fix bd56ff75). That a body line of an ALARM starts only while the Alarm is activated, that a Watch keeps its activation, and that nothing of a body starts after the enclosing block ended are decided by the Coq monitor on the real interpreter. Cancel / force: C12."
+    LEVEL_TEXT = "PARTIAL. Coq theorems about the interpreter model: in EVERY tick a Watch / Alarm becomes activated only if its condition evaluated true without raising in that tick's environment (or it had been forced); in EVERY state of EVERY run a started line whose parent is a Watch (outside Alarm and Macro bodies) has an ACTIVATED parent -- a Watch body runs only after its condition held (stack invariant over all generators); the lines of a Watch body outside Alarm and Macro bodies start at most once in every run; after every tick of every run no Watch / Alarm whose block has ended has a handler left in the interrupt map (with /repo fix bd56ff75). That a body line of an ALARM starts only while the Alarm is activated, that a Watch keeps its activation, and that nothing of a body starts after the enclosing block ended are decided by the Coq monitor on the real interpreter. Cancel / force: 20% of the cases are methods with cancel / force requests against the run log, run on the request model of C12 (coq/model/C12.v: a cancelled Watch never runs its body, a request that is not offered changes nothing) with its correspondence and monitor."
     LEVEL_NOTE = "Theorems are about coq/model/Interp.v (with macros; injection, cancel / force and live edits are the subject of C14, C12 and C01). Tie: as for C05 -- tick-by-tick correspondence of the model with the real PInterpreter under scripted environments on every node's state fields, the interrupt map, the Block tag, scheduled commands and errors; the property's Coq monitor runs on the real observations. No axioms."
     TECHNIQUE = 'Coq proof (per-node update relation closed under every frame transition of the interpreter model, lifted to ticks and runs; rely / guarantee stack invariant over every frame of every generator) + tick-by-tick correspondence with the real PInterpreter + Coq monitor on the real node states'
-    RULE = 'methods and environments as for C05 (watches and alarms, also nested, with per-condition truth probabilities 0-1 and 1% evaluation errors); non-trivial = at least 10 ticks and three completed lines'
+    RULE = '80%: methods and environments as for C05 (watches and alarms, also nested, with per-condition truth probabilities 0-1 and 1% evaluation errors); non-trivial = at least 10 ticks and three completed lines; 20%: methods with cancel / force requests as for C12 (non-trivial = one request carried out and one refused)'
+
+    COQ_IMPORTS = InterpProp.COQ_IMPORTS + "\nFrom OP Require Import model.C12."
+
+    def gen_cases(self, rng, n, tier):
+        out = []
+        for _ in range(n):
+            if rng.random() < 0.2:      # cancel / force requests against the run log (the stream of C12)
+                out.append(dict(kind="req", **C12M.gen_case(rng)))
+            else:
+                out.append(gen_interp_case(rng))
+        return out
+
+    def run_impl(self, case):
+        if case.get("kind") == "req":
+            o = dict(C12M.PROP.run_impl(_strip(case)))
+            o["kind"] = "req"
+            return o
+        return super().run_impl(case)
+
+    def case_to_coq(self, case):
+        if case.get("kind") == "req":
+            return "(IReq " + C12M.PROP.case_to_coq(_strip(case)) + ")"
+        return "(IRun " + super().case_to_coq(case) + ")"
+
+    def obs_to_coq(self, obs):
+        if obs.get("kind") == "req":
+            return "(OReq " + C12M.PROP.obs_to_coq(obs) + ")"
+        return "(ORun " + super().obs_to_coq(obs) + ")"
 
     def nontrivial(self, case, obs):
+        if obs.get("kind") == "req":
+            return C12M.PROP.nontrivial(_strip(case), obs)
         return len(obs["views"]) >= 10 and sum(1 for n in obs["views"][-1]["nodes"] if n[1]) >= 3
 
     def kind(self, case, obs):
+        if obs.get("kind") == "req":
+            return "req," + C12M.PROP.kind(_strip(case), obs)
         return "raised=%d,ints=%d" % (int(any(v["raised"] for v in obs["views"])), min(2, max(len(v["interrupts"]) for v in obs["views"])))
 
 
